@@ -137,8 +137,9 @@ class Output:
         shutil.rmtree(self.dir, ignore_errors=True)
 
 
-def render(system, theme="classic", inventory=True):
-    out = tempfile.mkdtemp(prefix="verif_render_")
+def render(system, theme="classic", inventory=True, into=None):
+    """into: an existing directory to write into (e.g. one that already holds a previous run's output)"""
+    out = into or tempfile.mkdtemp(prefix="verif_render_")
     try:
         tl = TemplateLookup(ir.files("pydoctor.themes") / "base")
         if theme != "base":
